@@ -244,11 +244,11 @@ def _apply(cfg):
     import numericalunits as nu
     k = cfg['kind']
     if k == 'SI':
-        uc.reset_units('SI')
+        _timed(uc.reset_units, 'SI')
     elif k == 'seed':
-        uc.reset_units(cfg['seed'])
+        _timed(uc.reset_units, cfg['seed'])
     else:
-        uc.reset_units(**cfg['kw'])
+        _timed(uc.reset_units, **cfg['kw'])
     return [float(getattr(nu, b)) for b in BASE]
 
 
@@ -609,10 +609,49 @@ def outside_malformed(s):
     return bool(_HANG.search(z) or _SOLEOP.search(z) or _WEIRDNUM.search(z)) or 'rtHz' in s
 
 
+class Hang(Exception):
+    """the real code did not return within the CPU-time limit."""
+
+
+_WATCH = {'fired': False, 'limit': 10.0, 'hangs': []}
+
+
+def _on_vtalrm(signum, frame):
+    _WATCH['fired'] = True
+    raise Hang('no result within the CPU-time limit')
+
+
+def _timed(fn, *a, **k):
+    """call into the real code under a CPU-time watchdog (ITIMER_VIRTUAL; `check` itself uses the real-time alarm),
+    so that a loop that never ends is reported as the failing input instead of stalling the run. The timer repeats
+    (set_literal's bare `except:` can swallow one delivery, not all of them); after the first hang the limit drops so
+    that a systematically hanging implementation does not cost 10 s per case."""
+    import signal
+    old = signal.signal(signal.SIGVTALRM, _on_vtalrm)
+    signal.setitimer(signal.ITIMER_VIRTUAL, _WATCH['limit'], 0.003)
+    try:
+        return fn(*a, **k)
+    finally:
+        signal.setitimer(signal.ITIMER_VIRTUAL, 0.0)
+        signal.signal(signal.SIGVTALRM, old)
+        if _WATCH['fired']:
+            _WATCH['fired'] = False
+            if len(_WATCH['hangs']) < 5:
+                _WATCH['hangs'].append((getattr(fn, '__name__', str(fn)), repr(a)[:300], _WATCH['limit']))
+            _WATCH['limit'] = 0.05
+
+
+def _report_hangs(ctx):
+    for name, args, limit in _WATCH['hangs'][:1]:
+        ctx.violate('hang:' + name, f'uc.{name}{args} did not return within {limit} s of CPU time',
+                    {'op': 'hang', 'fn': name, 'args': args})
+    _WATCH['hangs'].clear()
+
+
 def _real_parse(uc, s):
     """-> float value or 'err' (any exception, or a non-numeric / non-finite result)."""
     try:
-        r = uc.parse(s)
+        r = _timed(uc.parse, s)
     except Exception:  # noqa
         return 'err'
     if isinstance(r, bool) or not isinstance(r, (int, float)) or r != r or r in (float('inf'), float('-inf')):
@@ -805,7 +844,7 @@ def _corr_convert(ctx, rng, uc, cfg, n):
         arg = arr if rng.random() < 0.5 else arr.tolist()
         for op, f in (('set', uc.set_in_units), ('get', uc.get_in_units)):
             try:
-                r = np.asarray(f(arg, s))
+                r = np.asarray(_timed(f, arg, s))
                 impl = r.ravel().tolist() if r.shape == arr.shape and r.dtype.kind == 'f' else 'shape'
                 if impl != 'shape' and not np.isfinite(r).all():
                     impl = 'err'
@@ -840,7 +879,7 @@ def _corr_convert(ctx, rng, uc, cfg, n):
     for it in range(n):
         term, e = gen_literal(rng, t, vals)
         try:
-            r = uc.set_literal(term)
+            r = _timed(uc.set_literal, term)
             impl = float(r) if np.ndim(r) == 0 else 'shape'
         except Exception:  # noqa
             impl = 'err'
@@ -1034,6 +1073,7 @@ def correspond(ctx):
         _corr_reset(ctx, rng, uc)
     finally:
         _restore()
+        _report_hangs(ctx)
     ctx.extra['unit_names'] = len(snap)
 
 
@@ -1134,8 +1174,8 @@ def _o_parse(ctx, uc, cfg, s, vals):
 def _o_inverse(ctx, np, uc, cfg, s, xs, shape, as_list):
     arr = np.array(xs, dtype=float).reshape(shape)
     arg = arr.tolist() if as_list else arr
-    w = uc.set_in_units(arg, s)
-    back = np.asarray(uc.get_in_units(w, s))
+    w = _timed(uc.set_in_units, arg, s)
+    back = np.asarray(_timed(uc.get_in_units, w, s))
     replay = {'op': 'inverse', 'cfg': cfg, 'units': s, 'value': xs, 'shape': list(shape), 'as_list': as_list}
     if np.asarray(w).shape != arr.shape or back.shape != arr.shape:
         ctx.violate('inverse:shape', f'set_in_units/get_in_units({s!r}) change the shape {arr.shape} -> '
@@ -1193,7 +1233,7 @@ def _o_indep(ctx, np, uc, s1, s2, xs, cfgs, si_vals, dims):
                 raise Outside('magnitude')
         except (Outside, EvalErr):
             continue            # an intermediate leaves the double range under these working units
-        got = np.asarray(uc.get_in_units(uc.set_in_units(np.array(xs), s1), s2)).tolist()
+        got = np.asarray(_timed(uc.get_in_units, _timed(uc.set_in_units, np.array(xs), s1), s2)).tolist()
         for g, w in zip(got, want):
             if g != g or abs(g) == float('inf') or not abs(Fraction(g) - w) <= Fraction(_tol(w, e1 + e2 + 2)):
                 ctx.violate('independence', f'{xs} [{s1}] in [{s2}] after {_cfg_str(cfg)} is {got}; in SI units it is '
@@ -1265,7 +1305,7 @@ def _o_setlit(ctx, uc, cfg, value, s, sep, vals):
         return
     want = lit_value(value) * cls[1]
     try:
-        got = float(uc.set_literal(term))
+        got = float(_timed(uc.set_literal, term))
     except Exception as ex:  # noqa
         got = f'{type(ex).__name__}: {ex}'
     if isinstance(got, str) or not abs(Fraction(got) - want) <= Fraction(_tol(want, cls[2] + 2)):
@@ -1369,6 +1409,7 @@ def search(ctx, broken):
             _guard(ctx, 'style', {'op': 'style', 'style': st}, _o_style, ctx, uc, lmp, st, t.dims, scfgs)
     finally:
         _restore()
+        _report_hangs(ctx)
 
 
 def replay(ctx, payload):
